@@ -1,4 +1,5 @@
 import PyCraft.Lemmas.C05DispatchReg
+import PyCraft.Lemmas.C05DispatchBytes
 import PyCraft.Props.C01
 import PyCraft.Props.C02
 import PyCraft.Props.C06
@@ -28,7 +29,13 @@ the id — picks that class.  This file closes that:
   `write_fields` AND `read` of each hand-written class perform (recorded by a logging context) are
   exactly those the model's flags are built from, with the model's results; the live writer and reader
   of `Position` / `Record` / `Pitch` use the same format, the one given by the thresholds 443 / 741 /
-  201 / 204.
+  201 / 204;
+* `hand_bytes_live`: under every known version the bytes the live `write_fields` of each hand-written
+  class produces for a sample packet, and those it produces for what the live `read` made of them, are
+  the bytes of the model's codec for that class and version;
+* `effpos_*`, `pitch_byte_*`: the value-level scaling of `SoundEffectPacket.EffectPosition` / `Pitch`.
+
+Generated data: `Generated/C05Dispatch.lean` (by `harness/gen/c05dispatch.py`, from the live code).
 
 Only property theorems and examples here; helpers are in `Lemmas/C05Dispatch*.lean`.
 -/
@@ -45,6 +52,17 @@ theorem registry_extends_id_tables :
   refine ⟨aligned, fun t ht => ?_⟩
   have h := List.all_eq_true.mp cols_known _ (mem_idTables_of_mem ht)
   simpa [Function.comp_def, RegRow.idRow] using h
+
+/-- The lookup functions the driver uses (`regRow t v`, `regEnt t v c`: first table named `t`, first
+row of version `v`, first class named `c`) return members of `regTable`: every theorem below applies
+to what they return. -/
+theorem lookups_are_members (t : String) (v : Nat) (c : String) (r : RegRow) (e : RegEnt)
+    (hr : regRow t v = some r) (he : regEnt t v c = some e) :
+    (∃ tt ∈ regTable, tt.1 = t ∧ r ∈ tt.2 ∧ r.v = v) ∧ e ∈ r.ents ∧ e.cls = c := by
+  obtain ⟨r', hr', hm, hc⟩ := regEnt_mem he
+  rw [hr] at hr'
+  cases hr'
+  exact ⟨regRow_mem hr, hm, hc⟩
 
 /-! ## any codec -/
 
@@ -215,14 +233,30 @@ theorem flagless_classes_live :
     SpyAgrees C05D.plugSend unitFlagsOf (fun _ => []) ∧ SpyAgrees C05D.plugRead unitFlagsOf (fun _ => []) :=
   noFlags_spy
 
-/-- The spy tables were recorded on the classes with the names `handCodec` dispatches on. -/
+/-- The hand-written classes are tied to their MODELS by behaviour, not by name only.  `BytesAgree tab`
+says: `tab` (generated by running the live code) has one row per known protocol version, in order, and
+under every version `v` (i) the bytes the live `write_fields` of the class produces for the sample
+packet — `none` if it raises — are exactly what the model's codec for that class and version
+(`handCodec tab.cls v`) writes for the same sample, and (ii) the bytes the live `write_fields` produces
+for the packet the live `read` made of those bytes are exactly what the model writes for the
+NORMALISED sample, i.e. for what the model's reader returns (`codec_roundtrip`).  This holds for all six
+classes: version ↦ flags AND the use the code makes of the flags are pinned on the sample, for both
+directions, under all known versions. -/
+theorem hand_bytes_live :
+    BytesAgree C05D.mapBytes ∧ BytesAgree C05D.spawnBytes ∧ BytesAgree C05D.faceBytes ∧
+    BytesAgree C05D.combatBytes ∧ BytesAgree C05D.pliBytes ∧ BytesAgree C05D.plugBytes :=
+  ⟨map_bytes, spawn_bytes, face_bytes, combat_bytes, flagless_bytes.1, flagless_bytes.2⟩
+
+/-- The spy and byte tables were recorded on the classes with the names `handCodec` dispatches on. -/
 theorem spy_tables_classes :
     [C05D.mapSend, C05D.mapRead, C05D.pliSend, C05D.pliRead, C05D.spawnSend, C05D.spawnRead,
      C05D.combatSend, C05D.combatRead, C05D.faceSend, C05D.faceRead, C05D.plugSend, C05D.plugRead].map
       (·.cls) =
     ["MapPacket", "MapPacket", "PlayerListItemPacket", "PlayerListItemPacket", "SpawnObjectPacket",
      "SpawnObjectPacket", "CombatEventPacket", "CombatEventPacket", "FacePlayerPacket",
-     "FacePlayerPacket", "PluginResponsePacket", "PluginResponsePacket"] := by decide
+     "FacePlayerPacket", "PluginResponsePacket", "PluginResponsePacket"] ∧
+    [C05D.mapBytes, C05D.pliBytes, C05D.spawnBytes, C05D.combatBytes, C05D.faceBytes,
+     C05D.plugBytes].map (·.cls) = handNames := by decide
 
 /-- The context-dependent custom types.  `customProbe` (the format WRITTEN by the live
 `send_with_context` and the format ACCEPTED by the live `read_with_context` of `Position`,
@@ -238,10 +272,6 @@ theorem custom_formats_live :
 
 /-! ## value-level scaling of `SoundEffectPacket.EffectPosition` and `Pitch` -/
 
-/-- `EffectPosition` is the fixed-point format with 3 fractional bits. -/
-theorem effpos_is_fixed3 (p q : Int) :
-    effPosWire p q = fixedWire 3 p q ∧ ∀ w, effPosOfWire w = fixedOfWire 3 w := ⟨rfl, fun _ => rfl⟩
-
 /-- Every wire integer is reproduced: `send(read(w))` writes `w` again (`int((w / 8.0) * 8) = w`). -/
 theorem effpos_exact (w : Int) : effPosWire (effPosOfWire w).1 (effPosOfWire w).2 = w := by
   show Int.tdiv (w * 8) 8 = w
@@ -249,16 +279,14 @@ theorem effpos_exact (w : Int) : effPosWire (effPosOfWire w).1 (effPosOfWire w).
 
 /-- A coordinate `p / q` is sent as the integer `w` within one unit of `8·p/q`, truncated toward zero;
 so what the peer reads, `w / 8`, differs from the coordinate by less than 1/8 and never exceeds it in
-magnitude. -/
+magnitude.  (`EffectPosition` is definitionally the `FixedPoint` arithmetic of `Model/Scaled.lean` with
+3 fractional bits; this is `C02.fixed_quantum 3`.) -/
 theorem effpos_quantum (p q : Int) (hq : 0 < q) :
     let w := effPosWire p q
     (-q < w * q - p * 8 ∧ w * q - p * 8 < q) ∧
     (0 ≤ p → 0 ≤ w ∧ w * q ≤ p * 8) ∧ (p ≤ 0 → w ≤ 0 ∧ p * 8 ≤ w * q) := by
   have h := C02.fixed_quantum 3 p q hq
   exact ⟨h.1, h.2.1, h.2.2.1⟩
-
-/-- Multiples of 1/8 are sent exactly. -/
-theorem effpos_multiple_exact (n : Int) : effPosWire n 8 = n := effpos_exact n
 
 /-- The `Byte` pitch (protocol < 201), scaled (`× 63.5`, protocol < 204) or not: every byte value is
 reproduced by `send(read(b))` in exact arithmetic (`int((b / 63.5) * 63.5) = b`). -/
@@ -371,8 +399,8 @@ example : (regEnt "sbLogin" 757 "PluginResponsePacket").bind (·.codec) = some .
     regEnt "cbPlay" 755 "CombatEventPacket" = none := by
   decide +kernel
 
-/-- a K1 version (389: `PlayerListHeaderAndFooterPacket` and `TimeUpdatePacket` share 0x4A): the
-theorems still cover every OTHER id of that version — `MapPacket`'s 0x26 is not a known collision —
+/-- a K1 version (389: `PlayerListHeaderAndFooterPacket` and `TimeUpdatePacket` share 0x4A): every
+OTHER id of that version is still covered — `MapPacket`'s 0x26 is not a known collision —
 while under the colliding id the class found does depend on the iteration order -/
 example : some (0x26 : Int) ∉ C06.knownFor "cbPlay" 389 ∧
     (regEnt "cbPlay" 389 "MapPacket").bind (·.id) = some 0x26 ∧
